@@ -120,10 +120,86 @@ func TestC19_ModelAgreement(t *testing.T) {
 	g := txh.GenOpts{KeyDomain: 12, MaxOps: 14, MaxTxns: 6, BigValues: true, Rollbacks: true, Placements: []int{0, 0, 1, 2, 3, 4}, MaxStores: 2}
 	rapid.Check(t, func(t *rapid.T) {
 		h := txh.GenHistory(t, g)
-		e, _ := runSequential(t, h, nil)
+		e, models := runSequential(t, h, nil)
+		// cold caches: a brand-new OS process reads every store
+		jr, err := txh.RunJob(txh.Job{Kind: "dump", Dir: e.Dir, HashMod: h.HashMod, Stores: h.Stores})
+		if err != nil {
+			e.Cleanup()
+			t.Fatalf("%v", err)
+		}
+		if jr.Err != "" {
+			e.Cleanup()
+			t.Fatalf("fresh process cannot read the stores: %s\n%s", jr.Err, h.Render())
+		}
+		if why := txh.CheckDump(jr.Dumps, h.Stores, models); why != "" {
+			e.Cleanup()
+			t.Fatalf("fresh process (cold caches): %s\n%s", why, h.Render())
+		}
+		// metamorphic twin: the committed operations re-batched into one transaction per operation
+		if why := twinBatching(h, models); why != "" {
+			e.Cleanup()
+			t.Fatalf("%s\n%s", why, h.Render())
+		}
 		e.Cleanup()
 		labels, rewrite, big := historyLabels(h)
 		rec.Case(h.Render(), rewrite || big || len(h.Txns) >= 3, labels...)
 		rec.Sample("history", h.Render())
 	})
+}
+
+// twinBatching replays the committed writer transactions of h with a different batching (every
+// operation in its own transaction) on a fresh database; the result must equal the same model.
+func twinBatching(h txh.History, want []*txh.Model) string {
+	e, err := txh.NewEnv(h.HashMod)
+	if err != nil {
+		return err.Error()
+	}
+	defer e.Cleanup()
+	txh.SeedUUIDs(h.UUIDSeed ^ 0x5555)
+	if err := e.Setup(h.Stores); err != nil {
+		return "twin setup: " + err.Error()
+	}
+	models := make([]*txh.Model, len(h.Stores))
+	for i, s := range h.Stores {
+		models[i] = &txh.Model{Unique: s.Unique}
+	}
+	n := 0
+	for _, p := range h.Txns {
+		if p.Mode != sop.ForWriting || p.End != "commit" {
+			continue
+		}
+		for _, op := range p.Ops {
+			switch op.Kind {
+			case "scan", "count", "findGet":
+				continue
+			}
+			if n >= 40 {
+				break
+			}
+			n++
+			var res txh.TxnResult
+			models, res = e.RunTxn(txh.TxnProg{Mode: sop.ForWriting, End: "commit", Ops: []txh.Op{op}}, h.Stores, models, txh.RunOpts{})
+			if res.OpErr != nil || res.Mismatch != "" || res.CommitErr != nil {
+				return fmt.Sprintf("twin batching (one op per transaction), op %s: opErr=%v mismatch=%q commitErr=%v", op, res.OpErr, res.Mismatch, res.CommitErr)
+			}
+		}
+	}
+	if n >= 40 {
+		return "" // bounded; long histories are compared only on the original batching
+	}
+	d, err := e.Dump(h.Stores, sop.ForReading)
+	if err != nil {
+		return "twin dump: " + err.Error()
+	}
+	// for duplicate-key stores the cursor-based ops may pick another duplicate than the first run did;
+	// the comparison is only made when every store is unique
+	for _, s := range h.Stores {
+		if !s.Unique {
+			return txh.CheckDump(d, h.Stores, models)
+		}
+	}
+	if why := txh.CheckDump(d, h.Stores, want); why != "" {
+		return "twin batching (one op per transaction) disagrees with the original batching: " + why
+	}
+	return ""
 }
